@@ -27,6 +27,9 @@ var CallEntries = []string{
 	"imagetype.Scan", "imagetype.ScanBuf", "imagetype.ReadAt", "imagetype.Buf",
 }
 
+// ownBR is the bufio.Reader of a caller that re-uses its own reader across ScanJPEG calls.
+var ownBR *bufio.Reader
+
 type callArgs struct {
 	Entry string `json:"entry"`
 }
@@ -94,6 +97,23 @@ func RunCall(entry string, sr *SReader, data []byte) (res map[string]interface{}
 		res["xmp"] = xm
 		res["xerr"] = xerr
 		res["calls"] = calls
+		return res, er
+	case "ScanJPEG/own-prepare", "ScanJPEG/own-scan", "ScanJPEG/own":
+		// a caller that keeps ONE bufio.Reader of its own across calls (ScanJPEG accepts the caller's reader):
+		// prepare = re-target it at this input, scan = scan whatever it is targeted at
+		if ownBR == nil {
+			ownBR = bufio.NewReaderSize(nil, 4096)
+		}
+		if entry != "ScanJPEG/own-scan" {
+			ownBR.Reset(sr)
+		}
+		if entry == "ScanJPEG/own-prepare" {
+			return res, nil
+		}
+		ir := exif2.NewIfdReader(exif2.Logger)
+		defer ir.Close()
+		er := jpeg.ScanJPEG(ownBR, ir.DecodeJPEGIfd, nil)
+		res["f"] = FlatExif(ir.Exif)
 		return res, er
 	case "ScanTiffHeader":
 		br := bufio.NewReaderSize(sr, 4096)
